@@ -83,7 +83,7 @@ func (se *SpecEnv) evalTerm(x *SExpr) *Term {
 
 // sink for type-invariant facts produced by loads during spec evaluation
 func (se *SpecEnv) load(f func(st *State) Value, st *State) Value {
-	tmp := &State{vars: st.vars, heap: st.heap, pc: nil, epoch: st.epoch}
+	tmp := &State{vars: st.vars, heap: st.heap, pc: nil, hav: st.hav}
 	v := f(tmp)
 	facts := tmp.pc.list()
 	if se.inQ > 0 {
